@@ -1,5 +1,5 @@
 # replay of a bounded stand-in violation (C17/C02): re-run native/c17_decomp.py
 import sys
-print('bloch_messiah on equal (n=3, 0 unsqueezed modes): reconstruction 3.1e-15, orthogonal-symplectic structure error 1.3, diagonal error 5.3e-16')
+print('graph_embed on random make_traceless (n=2, mean photon 1.3): U tanh(r) U^T proportional to the embedded matrix: True; mean photon per mode 0.17769')
 print('REPLAY-VIOLATION')
 sys.exit(1)
